@@ -17,6 +17,7 @@ func checkC05(c *Ctx) {
 		"(S7) the timer is armed with entries[0].Next minus a clock reading refreshed after the last wait, entries being sorted (sort.Sort on Cron.entries) with no later mutation; the comparator puts zero Next last and orders by Before; an entry received on Cron.add gets Next from its own schedule and a fresh clock reading and is appended. " +
 		"Also: a sync.WaitGroup counting jobs must not be waited on by a detached goroutine while a restart can Add to it (documented reuse restriction, panics); before its first wait the scheduler recomputes Next of every existing entry; the blocking drain of the timer channel is unreachable with the timer the wake-up case consumed; no path starts one entry twice in one wake-up iteration. " +
 		"(S9) every time handed to Entry.Schedule.Next (initial pass, add case, wake-up bookkeeping) derives from X.In(Cron.location) through now()/phis/parameters. " +
+		"Variables are followed as LOCATIONS (an SSA web through parameters, a local cell, a field of a local struct): 'now refreshed after the wait', 'timer cleared after it fired', 'nothing after stop' and 'timer re-armed after every change of entries/Next' (S7-rearm) are decided by flows that observe the assignments to the location and track flag variables (boolean phis, nil tests), so exit-by-flag loops and value+flag pairs are followed exactly; callbacks handed to same-package helpers (withLock(func(){...})) and calls through unexported func-typed fields are followed; the mutex state is part of the flow. " +
 		"NOT decided: once-per-activation over all histories and interleavings, timing ('never early' only as a guard on every start), behaviour under clock jumps, the values Entries() returns beyond 'Prev is the instant that was compared', the chain wrappers' semantics, user Schedule implementations."
 	r.Assumptions = append(r.Assumptions,
 		"interface calls (Schedule.Next, Logger, clock.Clock, clock.Timer) do not touch Cron.entries, Entry.Next/Prev or the Cron's channels",
@@ -50,6 +51,8 @@ func checkC05(c *Ctx) {
 	r.Rule("C05.S5-stop-final", "after receiving the stop request the scheduler never waits again, starts a job or touches entries", 1)
 	r.Rule("C05.S5-remove-applied", "after receiving a removal request the scheduler removes that id from Cron.entries before waiting again; the remover keeps only entries with another ID", 2)
 	a.checkStopCase()
+	r.Rule("C05.S7-rearm", "every wait of the scheduler follows an arming decision made after the last change of entries / Next", 1)
+	a.checkRearm()
 	a.checkRemoveCase()
 	r.Rule("C05.S6-rendezvous", "Cron.stop / Cron.remove / Cron.add are unbuffered", 3)
 	a.checkRendezvous()
